@@ -1,1 +1,156 @@
-import GeoModel
+/-
+  C13 — a Circle means "within great-circle distance of the centre" (over ℝ).
+
+  Statements are about the definitions generated from circle.go / geo/geo.go
+  (`Gen.circleContainsPoint`, `Gen.newCircleHaversine`, `Gen.circleContainsCircle`,
+  `Gen.circleIntersectsCircle`) at the exact instance `GeoNum ℝ`.
+  `Gen.circleContainsPoint t cx cy px py` is `(*Circle).containsPoint` with `t = g.haversine`,
+  centre (cx, cy) and point (px, py) (x = longitude, y = latitude);
+  `Gen.newCircleHaversine m` is the field `haversine` that `NewCircle(_, m, _)` stores.
+
+  Observation (`circle_contains_point_wraps`): for a radius in [πR, 2πR] the stored haversine
+  threshold DEcreases again (sin² has period 2πR): the circle then contains exactly the points
+  within distance 2πR − m, not the whole sphere.  The main theorem is therefore stated for
+  0 < m ≤ πR (half the circumference), which is the meaningful range.
+-/
+import GeoProofs.GeoLemmas
+import GeoProofs.Props.C15
+
+namespace Geo.C13
+open Geo GeoReal Real Geo.C15
+
+local notation "R" => (6371000 : ℝ)
+
+/-! ### NewCircle's normalisation -/
+
+theorem newCircle_normalises (m : ℝ) (hm : 0 < m) :
+    Gen.newCircleHaversine m = Gen.distanceToHaversine (Gen.normalizeDistance m) := by
+  rw [newCircleHaversine_eq, if_pos hm]
+
+theorem newCircle_normalises_nonpos (m : ℝ) (hm : m ≤ 0) : Gen.newCircleHaversine m = 0 := by
+  rw [newCircleHaversine_eq, if_neg (not_lt.2 hm)]
+
+/-- the normalisation does not change the threshold: it is the haversine of `m` itself -/
+theorem newCircle_haversine (m : ℝ) (hm : 0 < m) :
+    Gen.newCircleHaversine m = Gen.distanceToHaversine m := by
+  rw [newCircle_normalises m hm, normalize_haversine]
+
+/-- `g.meters` keeps the un-normalised radius -/
+theorem newCircle_meters (m : ℝ) : Gen.newCircleMeters m = m := newCircleMeters_eq m
+
+/-! ### contains point ⇔ distance ≤ radius -/
+
+private theorem hav_mem (cy py px cx : ℝ) (hcy : -90 ≤ cy ∧ cy ≤ 90) (hpy : -90 ≤ py ∧ py ≤ 90) :
+    0 ≤ Gen.haversine py px cy cx ∧ Gen.haversine py px cy cx ≤ 1 :=
+  ⟨haversine_nonneg _ _ _ _ hpy hcy, haversine_le_one _ _ _ _ hpy hcy⟩
+
+/-- threshold form: for a radius `m ∈ [0, πR]`, haversine ≤ haversine-of-m ⇔ distance ≤ m -/
+theorem haversine_le_iff_distance_le (cx cy px py m : ℝ) (hm : 0 ≤ m ∧ m ≤ π * R)
+    (hcy : -90 ≤ cy ∧ cy ≤ 90) (hpy : -90 ≤ py ∧ py ≤ 90) :
+    Gen.haversine py px cy cx ≤ Gen.distanceToHaversine m ↔ Gen.distanceTo py px cy cx ≤ m := by
+  rw [distanceTo_eq]
+  have hh := hav_mem cy py px cx hcy hpy
+  have key := distanceTo_from_id _ hh
+  have hmem : Gen.distanceFromHaversine (Gen.haversine py px cy cx) ∈ Set.Icc (0 : ℝ) (π * R) :=
+    ⟨distanceFromHaversine_nonneg _, distanceFromHaversine_le _⟩
+  have := distanceToHaversine_strictMono.le_iff_le hmem (⟨hm.1, hm.2⟩ : m ∈ Set.Icc (0 : ℝ) (π * R))
+  rw [key] at this
+  exact this
+
+theorem circle_contains_point_iff (cx cy px py m : ℝ) (hm : 0 < m ∧ m ≤ π * R)
+    (hcy : -90 ≤ cy ∧ cy ≤ 90) (hpy : -90 ≤ py ∧ py ≤ 90) :
+    Gen.circleContainsPoint (Gen.newCircleHaversine m) cx cy px py = true
+      ↔ Gen.distanceTo py px cy cx ≤ m := by
+  rw [circleContainsPoint_iff, newCircle_haversine m hm.1]
+  exact haversine_le_iff_distance_le cx cy px py m ⟨hm.1.le, hm.2⟩ hcy hpy
+
+/-- radius 0 (or negative): threshold 0, only points at distance 0 are contained -/
+theorem circle_contains_point_zero (cx cy px py m : ℝ) (hm : m ≤ 0)
+    (hcy : -90 ≤ cy ∧ cy ≤ 90) (hpy : -90 ≤ py ∧ py ≤ 90) :
+    Gen.circleContainsPoint (Gen.newCircleHaversine m) cx cy px py = true
+      ↔ Gen.distanceTo py px cy cx = 0 := by
+  rw [circleContainsPoint_iff, newCircle_normalises_nonpos m hm]
+  have h0 : (Gen.distanceToHaversine (0 : ℝ)) = 0 := by simp [distanceToHaversine_eq]
+  have := haversine_le_iff_distance_le cx cy px py 0 ⟨le_refl _, by positivity⟩ hcy hpy
+  rw [h0] at this
+  rw [this]
+  constructor
+  · intro h; exact le_antisymm h (distanceTo_nonneg _ _ _ _)
+  · intro h; exact h.le
+
+theorem circle_contains_monotone (cx cy px py m m' : ℝ) (hm : 0 ≤ m) (hmm : m ≤ m')
+    (hm' : m' ≤ π * R) (hcy : -90 ≤ cy ∧ cy ≤ 90) (hpy : -90 ≤ py ∧ py ≤ 90)
+    (h : Gen.circleContainsPoint (Gen.newCircleHaversine m) cx cy px py = true) :
+    Gen.circleContainsPoint (Gen.newCircleHaversine m') cx cy px py = true := by
+  rcases eq_or_lt_of_le hm with h0 | h0
+  · subst h0
+    have hd := (circle_contains_point_zero cx cy px py 0 (le_refl _) hcy hpy).1 h
+    rcases eq_or_lt_of_le hmm with h1 | h1
+    · subst h1; exact h
+    · exact (circle_contains_point_iff cx cy px py m' ⟨h1, hm'⟩ hcy hpy).2 (by linarith)
+  · have hd := (circle_contains_point_iff cx cy px py m ⟨h0, hmm.trans hm'⟩ hcy hpy).1 h
+    exact (circle_contains_point_iff cx cy px py m' ⟨by linarith, hm'⟩ hcy hpy).2 (by linarith)
+
+/-- Beyond half the circumference the threshold wraps: for `πR ≤ m ≤ 2πR` the circle built by
+    `NewCircle` contains exactly the points within distance `2πR − m`. -/
+theorem circle_contains_point_wraps (cx cy px py m : ℝ) (hm : π * R ≤ m ∧ m < 2 * (π * R))
+    (hcy : -90 ≤ cy ∧ cy ≤ 90) (hpy : -90 ≤ py ∧ py ≤ 90) :
+    Gen.circleContainsPoint (Gen.newCircleHaversine m) cx cy px py = true
+      ↔ Gen.distanceTo py px cy cx ≤ 2 * (π * R) - m := by
+  have hp := pi_pos
+  have hpos : 0 < m := by nlinarith
+  rw [circleContainsPoint_iff, newCircle_haversine m hpos]
+  have e : Gen.distanceToHaversine m = Gen.distanceToHaversine (2 * (π * R) - m) := by
+    rw [distanceToHaversine_eq, distanceToHaversine_eq,
+      show (2 * (π * R) - m) / (2 * R) = π - m / (2 * R) by field_simp, sin_pi_sub]
+  rw [e]
+  exact haversine_le_iff_distance_le cx cy px py _ ⟨by linarith [hm.2], by linarith [hm.1]⟩ hcy hpy
+
+/-! ### the circle/circle comparisons (these pin the translated operators `<=`) -/
+
+theorem circle_contains_circle_sound (d rB rA : ℝ) :
+    Gen.circleContainsCircle d rB rA = true ↔ d + rB ≤ rA := by
+  simp [Gen.circleContainsCircle]
+
+theorem circle_intersects_circle_iff (d rB rA : ℝ) :
+    Gen.circleIntersectsCircle d rB rA = true ↔ d ≤ rB + rA := by
+  simp [Gen.circleIntersectsCircle]
+
+/-- the boundary case is included (would fail if `<=` were rewritten to `<`) -/
+example (cx cy : ℝ) (hcy : -90 ≤ cy ∧ cy ≤ 90) :
+    Gen.circleContainsPoint (Gen.newCircleHaversine 0) cx cy cx cy = true := by
+  rw [circle_contains_point_zero cx cy cx cy 0 (le_refl _) hcy hcy, distanceTo_self]
+
+example : Gen.circleContainsCircle (1 : ℝ) 2 3 = true := by
+  rw [circle_contains_circle_sound]; norm_num
+
+example : Gen.circleIntersectsCircle (5 : ℝ) 2 3 = true := by
+  rw [circle_intersects_circle_iff]; norm_num
+
+/-- non-vacuity: a point on the boundary circle of radius πR/2 around (0,0) -/
+example : Gen.circleContainsPoint (Gen.newCircleHaversine (π * R / 2)) 0 0 90 0 = true := by
+  have hp := pi_pos
+  rw [circle_contains_point_iff 0 0 90 0 (π * R / 2) ⟨by positivity, by nlinarith⟩
+    ⟨by norm_num, by norm_num⟩ ⟨by norm_num, by norm_num⟩]
+  rw [distanceTo_eq, distanceFromHaversine_eq, haversine_eq]
+  have e : (0 * (π / 180) - 90 * (π / 180)) / 2 = -(π / 4) := by ring
+  rw [e]
+  simp only [zero_mul, sub_self, zero_div, sin_zero, cos_zero, sin_neg, sin_pi_div_four]
+  have : (0 : ℝ) ^ 2 + 1 * 1 * (-(√2 / 2)) ^ 2 = (√2 / 2) ^ 2 := by ring
+  rw [this, sqrt_sq (by positivity), ← sin_pi_div_four,
+    arcsin_sin (by linarith) (by linarith)]
+  linarith
+
+end Geo.C13
+
+#print axioms Geo.C13.newCircle_normalises
+#print axioms Geo.C13.newCircle_normalises_nonpos
+#print axioms Geo.C13.newCircle_haversine
+#print axioms Geo.C13.newCircle_meters
+#print axioms Geo.C13.haversine_le_iff_distance_le
+#print axioms Geo.C13.circle_contains_point_iff
+#print axioms Geo.C13.circle_contains_point_zero
+#print axioms Geo.C13.circle_contains_monotone
+#print axioms Geo.C13.circle_contains_point_wraps
+#print axioms Geo.C13.circle_contains_circle_sound
+#print axioms Geo.C13.circle_intersects_circle_iff
